@@ -114,7 +114,9 @@ Repro(r, D) ==
   LET L == Lex(r.text, D)
       P == IF L.ok THEN Parse(L.toks, D) ELSE Fail(0)
       d == DocOf(r)
-  IN L.ok /\ P.ok /\ d.ok /\ LET o == Eval(P.t, d.v, Builtins) IN ~o.amb /\ Verdict(o, r.out) = "none"
+     \* (an outcome the specification leaves open under the deviating parse -- an expression reference reaching an `any` parameter, a tie --
+     \* is reproduced as far as it can be: the deviation leads the evaluation there, Level 0 does not)
+  IN L.ok /\ P.ok /\ d.ok /\ LET o == Eval(P.t, d.v, Builtins) IN Verdict(o, r.out) = "none"
 
 Allowed(r) == Why(r) = "none"
 Expected(r) == LET x == Exp(r) IN [why |-> Why(r), spec |-> IF x.skip THEN [skip |-> TRUE] ELSE x.o]
